@@ -31,6 +31,12 @@ inductive Err where
   | missing (name : String)
   deriving DecidableEq, Repr
 
+/-- what a thread's operation returned or raised -/
+inductive Outcome where
+  | ok (out : List Int)
+  | raised (e : Err)
+  deriving DecidableEq, Repr
+
 inductive Step where
   | writeShared (cell : Nat) (name : String)
   | newTemp
@@ -81,9 +87,9 @@ def TState.init (p : List Step) : TState := { prog := p }
 def TState.done (t : TState) : Bool := t.err.isSome || t.prog.isEmpty
 
 /-- what the thread's operation returned / raised, once it has finished -/
-def TState.result (t : TState) : Option (Except Err (List Int)) :=
+def TState.result (t : TState) : Option Outcome :=
   match t.err with
-  | some e => some (.error e)
+  | some e => some (.raised e)
   | none => if t.prog.isEmpty then some (.ok t.out) else none
 
 /-- effect of one step on the shared store -/
@@ -133,14 +139,14 @@ def alone (sh : Shared) (t : TState) : Nat → Shared × TState
   | n + 1 => let r := stepT sh t; alone r.1 r.2 n
 
 /-- the result of the program when nothing else runs -/
-def sequentialResult (sh : Shared) (p : List Step) : Option (Except Err (List Int)) :=
+def sequentialResult (sh : Shared) (p : List Step) : Option Outcome :=
   (alone sh (TState.init p) p.length).2.result
 
 def Cfg.init (sh : Shared) (progs : List (List Step)) : Cfg :=
   { shared := sh, threads := progs.map TState.init }
 
 /-- result of thread `i` after the schedule (none: not finished yet) -/
-def resultAt (cfg : Cfg) (i : Nat) : Option (Except Err (List Int)) :=
+def resultAt (cfg : Cfg) (i : Nat) : Option Outcome :=
   match cfg.threads[i]? with
   | none => none
   | some t => t.result
@@ -188,5 +194,23 @@ def progPosFrom (base : Nat) (name : String) (n : Nat) : Nat → List (Int × Bo
 
 def progPos (base : Nat) (name : String) (n : Nat) (elems : List (Int × Bool)) : List Step :=
   progPosFrom base name n 0 elems
+
+end Typedpy.Sched
+
+namespace Typedpy.Sched
+
+/-- one validation call of a collection field, as the harness describes it on the wire -/
+inductive Call where
+  | homog (cell : Nat) (name : String) (initW : Bool) (elems : List (Int × Bool))
+  | set (cell : Nat) (name : String) (elems : List (Int × Bool))
+  | map (kc vc : Nat) (name : String) (entries : List ((Int × Bool) × (Int × Bool)))
+  | pos (base : Nat) (name : String) (n : Nat) (elems : List (Int × Bool))
+  deriving Repr
+
+def Call.prog : Call → List Step
+  | .homog c n w es => progHomog c n w es
+  | .set c n es => progSet c n es
+  | .map kc vc n es => progMap kc vc n es
+  | .pos b n k es => progPos b n k es
 
 end Typedpy.Sched
